@@ -120,6 +120,56 @@ Lemma semi_release_eq : forall s t, semi_release s t = s.
 Proof. reflexivity. Qed.
 #[export] Hint Rewrite semi_release_eq : proj.
 
+(* build.Build's failure path sets the state before it wakes the waiters - in the source as it is (Gen/StateOrder.v:
+   buildfail_prog); with FinishBuild in front of SetState this fails and with it every proof that looks at LBuildFail *)
+Lemma state_before_finish_src : state_before_finish buildfail_prog = true.
+Proof. reflexivity. Qed.
+Lemma sbf_if : forall (A : Type) (x y : A), (if state_before_finish buildfail_prog then x else y) = x.
+Proof. intros A x y. rewrite state_before_finish_src. reflexivity. Qed.
+#[export] Hint Rewrite sbf_if : proj.
+
+(* waitOnChan, as a program run against ANY sequence of close / timer events: when the syntactic check wc_safe accepts
+   the program, it never returns before the close has been received (induction over the program). *)
+Lemma wc_exec_seen : forall p env, wc_exec p env true = Some false -> False.
+Proof.
+  induction p as [|st r IH]; intros env H; cbn in H; [discriminate|].
+  destruct st as [chret tmret|].
+  - destruct env as [|[|] env']; [discriminate| |].
+    + destruct chret; [discriminate | exact (IH _ H)].
+    + destruct tmret; [discriminate | exact (IH _ H)].
+  - destruct (wc_recv env) as [env'|]; [exact (IH _ H) | discriminate].
+Qed.
+Theorem wc_safe_sound : forall p, wc_safe p = true -> forall env seen b, wc_exec p env seen = Some b -> b = true.
+Proof.
+  induction p as [|st r IH]; intros Hs env seen b H; cbn in Hs; [discriminate|].
+  destruct st as [chret tmret|]; cbn in H.
+  - apply andb_prop in Hs. destruct Hs as [Ht Hr]. apply negb_true_iff in Ht. subst tmret.
+    destruct env as [|[|] env']; [discriminate| |].
+    + destruct chret; [inversion H; reflexivity|].
+      destruct b; [reflexivity | exfalso; exact (wc_exec_seen _ _ H)].
+    + exact (IH Hr _ _ _ H).
+  - destruct (wc_recv env) as [env'|]; [|discriminate].
+    destruct b; [reflexivity | exfalso; exact (wc_exec_seen _ _ H)].
+Qed.
+(* ... and conversely the check is exact: a rejected program has an environment in which it returns without the close *)
+Theorem wc_safe_complete : forall p, wc_safe p = false -> exists env, wc_exec p env false = Some false.
+Proof.
+  induction p as [|st r IH]; intros Hs; cbn in Hs.
+  - exists []. reflexivity.
+  - destruct st as [chret tmret|]; [|discriminate].
+    destruct tmret; cbn in Hs.
+    + exists [WETimer]. reflexivity.
+    + destruct (IH Hs) as [env He]. exists (WETimer :: env). exact He.
+Qed.
+(* the source as it is: WaitForBuild (SyncParsePackage, ...) returns only after the close *)
+Lemma wait_needs_close_src : wait_needs_close = true.
+Proof. reflexivity. Qed.
+Theorem waitonchan_waits : forall env b, wc_exec waitonchan_prog env false = Some b -> b = true.
+Proof. intros env b. apply wc_safe_sound. exact wait_needs_close_src. Qed.
+Lemma wait_ok_eq : forall b, (negb wait_needs_close || b) = b.
+Proof. intros b. rewrite wait_needs_close_src. reflexivity. Qed.
+#[export] Hint Rewrite wait_ok_eq : proj.
+
 (* ---- runs ---- *)
 Definition reachable (g : graph) (s : state) : Prop := exists ls, run g (init g) ls = Some s.
 
